@@ -8,7 +8,7 @@
 //
 // Per k one line:
 //   K <k> hit=<0|1> count=<allocations> live=<blocks>/<bytes> badfree=<n> badsize=<n> first=<rv> verdict=<...>
-// verdict: OK | BADRV:<step>:<rv> | NORECOVER:<step>:<rv> | LEAK | BADFREE | ENV:<step>:<rv>
+// verdict: OK | BADRV:<rv> | NORECOVER:<rv> | LEAK | BADFREE   (hit=0 and not OK: environment, not a finding)
 // A crash / sanitizer report / assertion / hang ends the process; the line "K <k> BEGIN"
 // (flushed before the run) names the k, and the stack of the injected failure is printed.
 #include <execinfo.h>
@@ -194,7 +194,9 @@ extern void __sanitizer_set_death_callback(void (*)(void)) __attribute__((weak))
 
 // ------------------------------------------------------------------ step bookkeeping
 enum { K_API = 0, K_XCHG = 1, K_CONN = 2 };
-static int         v_kind;      // 0 ok, 1 badrv, 2 norecover, 3 env
+static int         v_kind;      // 0 ok, 1 badrv, 2 norecover
+static int         env_rv;      // a step failed although no fault had been injected yet (environment / race)
+static char        env_step[64];
 static char        v_step[64];
 static int         v_rv;
 static char        first_step[64];
@@ -212,8 +214,10 @@ allowed(int kind, int rv)
 		return (rv == NNG_ETIMEDOUT || rv == NNG_ECONNRESET || rv == NNG_ECONNSHUT);
 	}
 	if (kind == K_CONN) {
+		// NNG_EPROTO: the peer (in this process) could not allocate its side of a
+		// WebSocket connection and answered the upgrade with an HTTP 500 page
 		return (rv == NNG_ETIMEDOUT || rv == NNG_ECONNRESET || rv == NNG_ECONNREFUSED ||
-		    rv == NNG_ECONNSHUT || rv == NNG_ECONNABORTED);
+		    rv == NNG_ECONNSHUT || rv == NNG_ECONNABORTED || rv == NNG_EPROTO);
 	}
 	return false;
 }
@@ -238,7 +242,12 @@ note(int kind, const char *step, int rv)
 		first_rv = rv;
 	}
 	if (!atomic_load(&g_hit)) {
-		verdict(3, step, rv); // failure without an injected fault: environment
+		// failure without an injected fault: environment (port in use) or an
+		// expected race (a publisher drops until the subscriber's pipe is attached)
+		if (env_rv == 0) {
+			env_rv = rv;
+			snprintf(env_step, sizeof(env_step), "%s", step);
+		}
 	} else if (!allowed(kind, rv)) {
 		verdict(1, step, rv);
 	}
@@ -470,7 +479,7 @@ static const pattern patterns[] = {
 	{ "reqrep", nng_rep0_open, nng_req0_open, 2 },
 	{ "pubsub", nng_pub0_open, nng_sub0_open, 3 },
 	{ "survey", nng_surveyor0_open, nng_respondent0_open, 4 },
-	{ "rawpair", nng_pair1_open_raw, nng_pair1_open_raw, 0 },
+	{ "rawpair", nng_pair0_open_raw, nng_pair0_open_raw, 0 },
 	{ NULL, NULL, NULL, 0 },
 };
 static const char *trans[] = { "inproc", "tcp", "ipc", "ws", NULL };
@@ -1115,6 +1124,7 @@ run_one(const program *pg, long k)
 	bool whole    = (pg->fn == prog_init); // only "init" injects into nng_init itself
 	g_failat      = whole ? k : 0;
 	v_kind        = 0;
+	env_rv        = 0;
 	v_step[0]     = 0;
 	first_step[0] = 0;
 	first_rv      = 0;
@@ -1149,8 +1159,6 @@ run_one(const program *pg, long k)
 		snprintf(vb, sizeof(vb), "BADFREE");
 	} else if (live != 0) {
 		snprintf(vb, sizeof(vb), "LEAK");
-	} else if (v_kind == 3) {
-		snprintf(vb, sizeof(vb), "ENV:%d", v_rv);
 	} else {
 		snprintf(vb, sizeof(vb), "OK");
 	}
@@ -1158,6 +1166,9 @@ run_one(const program *pg, long k)
 	    live, bytes, badfr, atomic_load(&g_badsize), first_rv, vb);
 	if (first_step[0]) {
 		printf("  first-failing-step: %s\n", first_step);
+	}
+	if (env_rv != 0) {
+		printf("  failed-before-any-fault: %s rv=%d\n", env_step, env_rv);
 	}
 	if (v_kind == 1 || v_kind == 2) {
 		printf("  verdict-step: %s\n", v_step);
